@@ -42,7 +42,9 @@ CLAIMED = {
                  'characterisation of compatible (the function translated from resolve.py each run is proved equal to the '
                  'model\'s), bonds only for listed edges of order >= 1, never more than the order, every bond from a '
                  'compatible pair both atoms carried, conservation of descriptors (none used twice), exactly `order` '
-                 'bonds under the dedicated-unique-pair hypothesis (L-restore), bond order rule. The model of the '
+                 'bonds under the dedicated-unique-pair hypothesis (L-restore), bond order rule. About the molecule itself '
+                 '(C03_step_adjacency, every step): after bond creation two atoms are bonded iff they were bonded inside a fragment '
+                 'copy or a bond was created for them from a descriptor pair — nothing else appears, nothing disappears. The model of the '
                  'resolution step is tied to the code by exact differential execution on generated descriptions.'),
         'note': RESOLVE_NOTE + 'The final "1.5 inside aromatic rings" clause rests on pysmiles.',
         'design': '§7 C03',
